@@ -40,7 +40,7 @@ void oracle_misuse_op(const Op& op) {
   }
   Block* b = (op.slot >= 0 && op.slot < (int)H.slots.size()) ? H.slots[op.slot] : nullptr;
   // the overflow check also applies to blocks of fewer than 8 bytes and to blocks that another thread allocated (checked on the cross-thread free path)
-  const bool overflow_ok = (op.code == OP_overflow_byte) && b && b->heap >= 0 && b->align == 0 && b->offset == 0 && !b->odd_origin && b->usable == b->req && b->req >= 1 && b->usable + 8 <= 8192 && b->filled;
+  const bool overflow_ok = (op.code == OP_overflow_byte) && b && b->heap >= 0 && b->align == 0 && b->offset == 0 && !b->odd_origin && b->usable == b->req && b->req >= 1 && b->usable + 8 <= 8u * 1024 * 1024 && b->filled;   // (huge pages carry no fill bytes: only the canary is checked there)
   if (!overflow_ok && !local_plain_small(b)) { H.ops_noop++; return; }
   mi_heap_t* h = heap_ptr(b->heap);
   if (op.code == OP_double_free) {
